@@ -888,7 +888,13 @@ pub fn drive(prop: &str, tier: Tier, seed: u64, single_replay: Option<PathBuf>, 
     let mut ctx = Ctx::new(prop, tier, seed, Mode::Generate, known.clone());
     ctx.replays_run = replays_run;
     if violation_lines.is_empty() {
-        run(&mut ctx);
+        // a panic outside a case is harness trouble, never a verdict
+        if catch_unwind(AssertUnwindSafe(|| run(&mut ctx))).is_err() {
+            let p = LAST_PANIC.with(|p| p.borrow_mut().take());
+            eprintln!("INCONCLUSIVE: harness panicked outside a case: {:?}", p);
+            println!("INCONCLUSIVE harness-panic");
+            return 2;
+        }
     }
     for v in &ctx.violations {
         violation_lines.push(format!("VIOLATION property={prop} replay={}", v.replay_path.display()));
